@@ -3,6 +3,7 @@ package run
 import (
 	"context"
 	"fmt"
+	"math"
 	"strconv"
 	"strings"
 	"time"
@@ -415,6 +416,27 @@ func genDf1415(c *Ctx) {
 			}
 		}
 	}
+	// near-equal decimal readings: a decrease of one ulp .. 1e-6 is a decrease (reset / wrap / dropped), an increase of
+	// that size is an increase: no tolerance anywhere
+	for _, base := range []float64{0.3, 150, 999.5, 0, -1.5} {
+		for _, tiny := range []float64{0, 1e-12, 1e-10, 1e-9, 2e-9, 1e-6} {
+			for _, o := range nnOpts1415 {
+				for dir := -1; dir <= 1; dir += 2 {
+					near := base + float64(dir)*tiny
+					if tiny == 0 {
+						near = math.Nextafter(base, base+float64(dir))
+					}
+					vals := []float64{base - 1, base, near, base + 2, near}
+					var rs []string
+					for i, v := range vals {
+						rs = append(rs, fmt.Sprintf("%d:%s", int64(i)*hourNs1415, fbits1415(v)))
+					}
+					c.Case(true, fmt.Sprintf("df f + %s %s | %s", o.nn, fbits1415(o.mx), strings.Join(rs, ",")))
+					c.Case(true, fmt.Sprintf("rt f + 60 %s %s | %s", o.nn, fbits1415(o.mx), strings.Join(rs, ",")))
+				}
+			}
+		}
+	}
 	// rejections
 	for _, e := range []string{"df s + 0 0000000000000000 | 0:1,60000000000:2", "df i ? 0 0000000000000000 | 0:1,60000000000:2",
 		"df f ? 1 4024000000000000 | 0:3ff0000000000000", "df b + 1 0000000000000000 | -", "df t ? 0 0000000000000000 | 0:1"} {
@@ -431,7 +453,7 @@ func genDf1415(c *Ctx) {
 		case 1:
 			mx = 1000
 		}
-		nn := strconv.Itoa(c.Rng.Intn(4) / 3 ^ 1)
+		nn := strconv.Itoa(c.Rng.Intn(4)/3 ^ 1)
 		t := int64(c.Rng.Range(-100, 100)) * 1e9
 		var rs []string
 		cur := int64(c.Rng.Range(0, 500))
@@ -451,7 +473,12 @@ func genDf1415(c *Ctx) {
 			}
 			v := fmtI1415(cur)
 			if ty == "f" {
-				v = fbits1415(float64(cur) + float64(c.Rng.Intn(8))/8)
+				f := float64(cur) + float64(c.Rng.Intn(8))/8
+				if c.Rng.Intn(6) == 0 {
+					// a hair below / above a plain reading
+					f += []float64{-1e-12, -1e-10, -1e-9, 1e-10, -3e-8}[c.Rng.Intn(5)]
+				}
+				v = fbits1415(f)
 				if c.Rng.Intn(10) == 0 {
 					v = rndVal1415(c.Rng, "f")
 				}
